@@ -14,6 +14,7 @@ try:
     import ctypes
 except BaseException:
     ctypes = None
+from pedal.utilities import verif_hooks
 
 
 class InterruptableThread(threading.Thread):
@@ -88,6 +89,8 @@ def timeout(duration, func, *args, **kwargs):
 
     if target_thread.is_alive():
         target_thread.terminate()
+        if verif_hooks.ENABLED:
+            verif_hooks.sync("M:terminated")
         timeout_exception = TimeoutError('Your code took too long to run '
                                          '(it was given {} seconds); '
                                          'maybe you have an infinite loop?'.format(duration))
